@@ -3,14 +3,18 @@
  * of the object (assigns clause empty).  The text it produces is NOT specified: snprintf/sprintf/strcat and the
  * str class calls are stubs without format semantics (env_mbuff.h VERIF_MB_FMTSTUBS; spif_str_* and
  * spiftool_safe_str have no body in this TU), so writes into the 4096-byte scratch line are checked only where
- * a size is passed (snprintf) - stated NA.  indent is bounded so that indent + the fixed text fits the line. */
+ * a size is passed (snprintf) - stated NA.  indent is bounded so that indent + the fixed text fits the line.
+ * Tier B: the row buffer is a block-local array written through memcpy/memset inside the row loop, which the
+ * loop-contract frame check of DFCC rejects (it cannot be named at the loop head), so the loops are unwound. */
 /*@unit
 name: mbuff.show
 define: VERIF_MB_FMTSTUBS
 src: mbuff.c
 enforce: spif_mbuff_show
 backend: sat
-loops: 1
+tier: B
+bound: buffers of at most 64 bytes (8 rows of the dump; the three loops are unwound), capacity, bytes, indent <= 4000 symbolic
+unwind: 10
 objbits: 6
 flags: --slice-formula
 timeout: 300
@@ -26,7 +30,7 @@ spif_bool_t spif_str_append_from_ptr(spif_str_t self, spif_charptr_t other) { __
 spif_charptr_t spiftool_safe_str(spif_charptr_t str, unsigned short len) { __CPROVER_assert(len == 0 || __CPROVER_rw_ok(str, len), "show: row handed to safe_str is inside the row buffer"); return str; }
 
 spif_str_t spif_mbuff_show(spif_mbuff_t self, spif_byteptr_t name, spif_str_t buff, size_t indent)
-__CPROVER_requires(MBUFF_INV(self) && indent <= 4000 && VCSTR_FRESH(name, vg_n1))
+__CPROVER_requires(MBUFF_INV(self) && self->len <= 64 && indent <= 4000 && VCSTR_FRESH(name, vg_n1))
 __CPROVER_assigns()
 ;
 void harness(void)
